@@ -1293,7 +1293,11 @@ fn gen_ops(rng: &mut Rng, disciplined: bool, len: usize) -> Vec<String> {
                     let (a, b) = (rng.below(65536), rng.below(65536));
                     format!("p2b:{}:{}", *rng.pick(&[a, b, 0x2004, 0x0208, 0, 0xFFFF]), rng.below(20))
                 }
-                0 => "ps".to_string(),
+                0 => {
+                    // every other time over a buffer that certainly mixes syllables with a non-syllable (hk4 then ','):
+                    // the phone sequence holds the syllables only, so its announced length must too
+                    if rng.chance(1, 2) { "k:104,k:107,k:52,k:44,ps".to_string() } else { "ps".to_string() }
+                }
                 1 => format!("hs:{}", rng.below(6)),
                 2 => "gsk".to_string(),
                 _ => format!("cgs:{}", rng.below(2)),
